@@ -1,1 +1,2 @@
--- property theorems for C03 (stub)
+-- property theorems for C03 (in progress)
+import JanetModel.Value.Struct
